@@ -55,6 +55,14 @@ C10_CONSTEXPR inline bool c10_copy_constructible(C10Bits b) {
   return !c10_abstract(b) && c10_destructible(b) && c10_has_copy_ctor(b);
 }
 
+// ---- one user-provided constructor WITH parameters:  class A { <access>: A(<shape>); public: int m; };
+enum { S_NOARGS = 0 /* A() */, S_ONE = 1 /* A(int a) */, S_ONE_DEFAULT = 2 /* A(int a = 0) */,
+       S_TRAILING_DEFAULT = 3 /* A(int a, int b = 0) */, S_ALL_DEFAULT = 4 /* A(int a = 0, int b = 0) */ };
+// callable without arguments only if every parameter has a default argument [class.default.ctor]
+C10_CONSTEXPR inline bool c10p_is_default_ctor(int shape) { return shape == S_NOARGS || shape == S_ONE_DEFAULT || shape == S_ALL_DEFAULT; }
+C10_CONSTEXPR inline bool c10p_default_constructible(int shape, int vis) { return c10p_is_default_ctor(shape) && vis == A_PUBLIC; }
+C10_CONSTEXPR inline bool c10p_copy_constructible(int shape, int vis) { return true; }      // implicit copy constructor
+
 // ---- one base class:  class B { <special members of B, bits b>; int m; };  class A : public B { [void f();] int m; };
 // A declares no special member itself (everything implicit); a_overrides != 0: A declares f, which overrides B's pure
 // virtual f when B has one (and is an ordinary non-virtual function otherwise): 1 = `void f();` against
